@@ -522,12 +522,12 @@ func GenHistory(t *rapid.T, b Bias) History {
 		case "crashreopen":
 			g.closeAll(t)
 			g.established, g.creator = map[int]bool{}, map[int]int{}
-			g.m.Restarted(false, g.m.Head.MinValid)
+			g.m.Restarted(false, math.MinInt64, g.m.Head.MinValid)
 			g.ops = append(g.ops, Op{K: "crashreopen"})
 		case "reopen":
 			g.closeAll(t)
 			g.established, g.creator = map[int]bool{}, map[int]int{}
-			g.m.Restarted(false, g.m.Head.MinValid)
+			g.m.Restarted(false, math.MinInt64, g.m.Head.MinValid)
 			g.ops = append(g.ops, Op{K: "reopen"})
 		case "query":
 			mint := g.now - int64(rapid.IntRange(0, 3000).Draw(t, "qfrom"))
